@@ -8,7 +8,7 @@ import re
 import shutil
 import time
 
-from vcommon import Infra, build_harness, copy_specs, monitor_report, run, scratch_dir, tlc, tlc_errors, tlc_stats, tlc_violations
+from vcommon import Infra, drive, build_harness, copy_specs, monitor_report, run, scratch_dir, tlc, tlc_errors, tlc_stats, tlc_violations
 
 PROPS = ["C12", "C13", "C14"]
 DESIGN = {
@@ -60,9 +60,7 @@ def compute(tier, seed):
             design["runs"].append({"cfg": cfg, "expected_violation": inv, "violated": tlc_violations(out)})
         mbin = build_harness("merge")
         outdir = os.path.join(work, "run")
-        rc, txt, hsecs = run([mbin, "-out", outdir, "-seed", str(seed), "-tier", tier], timeout=6000, check=False)
-        if rc != 0:
-            raise Infra("merge harness failed: " + txt[-2000:])
+        txt, hsecs = drive([mbin, "-out", outdir, "-seed", str(seed), "-tier", tier], work, "merge", timeout=6000)
         obs_path = os.path.join(outdir, "obs.ndjson")
         rep, stats = monitor(work, obs_path)
         obs, kinds = {}, {}
